@@ -99,14 +99,19 @@ theorem C13_demux (rid : Nat) (hid : rid < 65536) (ps : List Piece) (tail : Byte
   demux_framing rid hid ps tail h
 
 /-- so the response the caller sees is a function of the responder's stdout bytes alone: the
-framing does not matter -/
+framing does not matter (for framings with fewer than 100 empty stdout records; a conforming one has one) -/
 theorem C13_response_framing_independent (rid : Nat) (hid : rid < 65536) (ps qs : List Piece)
     (t1 t2 : Bytes) (hp : WellSized ps) (hq : WellSized qs)
+    (hpe : emptyOuts ps < maxConsecutiveEmptyReads) (hqe : emptyOuts qs < maxConsecutiveEmptyReads)
     (hout : (outsOf ps).flatten = (outsOf qs).flatten) (herr : errsOf ps = errsOf qs) :
     clientView (framing rid ps t1) = clientView (framing rid qs t2) := by
   unfold clientView
   rw [C13_demux rid hid ps t1 hp, C13_demux rid hid qs t2 hq]
-  simp only [hout, herr]
+  have h1 : ¬ ((List.filter (fun x => x.isEmpty) (outsOf ps)).length ≥ maxConsecutiveEmptyReads) := by
+    unfold emptyOuts at hpe; omega
+  have h2 : ¬ ((List.filter (fun x => x.isEmpty) (outsOf qs)).length ≥ maxConsecutiveEmptyReads) := by
+    unfold emptyOuts at hqe; omega
+  simp only [h1, h2, if_false, hout, herr]
 
 /-- no Status header (or an empty one): the status is 200 -/
 theorem C13_status_default_200 (stdout : Bytes) (hs : List (Bytes × Bytes)) (body : Bytes)
@@ -219,14 +224,58 @@ theorem C13_wire_model_verdict_ok (rid : Nat) (hid : rid < 65536) (ps : List Pai
 /-- c13.demux: whenever the responder's stdout is a CGI response of the modelled grammar, the
 client view computed from any framing of it satisfies the response verdict -/
 theorem C13_demux_model_verdict_ok (rid : Nat) (hid : rid < 65536) (ps : List Piece) (tail : Bytes)
-    (h : WellSized ps) (r : Resp) (hr : parseResponse (outsOf ps).flatten = .resp r) :
+    (h : WellSized ps) (hempty : emptyOuts ps < maxConsecutiveEmptyReads)
+    (r : Resp) (hr : parseResponse (outsOf ps).flatten = .resp r) :
     ∃ v, clientView (framing rid ps tail) = .ok v ∧ respVerdict (outsOf ps).flatten (errsOf ps) v = "ok" := by
   unfold clientView
   rw [C13_demux rid hid ps tail h]
-  simp only [hr]
+  have hne : ¬ ((List.filter (fun x => x.isEmpty) (outsOf ps)).length ≥ maxConsecutiveEmptyReads) := by
+    unfold emptyOuts at hempty; omega
+  simp only [hne, if_false, hr]
   refine ⟨_, rfl, ?_⟩
   unfold respVerdict
   simp [hr]
+
+/-! ### the io.Reader contract of the response stream -/
+
+/-- One `Read(p)` of the demultiplexing reader with a non-empty `p`, from any state, on any bytes
+from the responder: it reports an error (EOF included), or delivers at least one byte, or it has
+just taken an empty data record off the connection (which is then the last record it consumed).
+Stderr records — however many in a row — are consumed inside the call and never end it. -/
+theorem C13_read_progress (s s' : SR) (plen : Nat) (o : ReadOut) (hp : 0 < plen)
+    (h : s.read plen = .ok (s', o)) :
+    o.err.isSome = true ∨ o.data ≠ [] ∨
+      ∃ rec, o.consumed.getLast? = some rec ∧ isEmptyData rec = true :=
+  read_progress s s' plen o hp h
+
+/-- So, for ANY responder bytes and any buffer size, the calls of a whole conversation that return
+(0, nil) are at most the empty data records the reader consumed. -/
+theorem C13_zero_reads_bounded (raw : Bytes) (plen : Nat) (hp : 0 < plen) (t : Trace)
+    (h : readTrace raw plen = .ok t) : t.zero ≤ t.empties :=
+  readAll_zero_le plen hp _ _ _ _ h (Nat.le_refl _)
+
+/-- And for every framing of (stdout, stderr) — any record sizes, paddings, interleavings, runs of
+stderr records of any length — read with any buffer size: exactly the stdout bytes, exactly the
+stderr bytes, a clean end, and exactly as many (0, nil) returns as there are empty stdout records
+(one for a conforming responder: the stream terminator). A caller that tolerates fewer than 100
+consecutive empty reads, like bufio.Reader, therefore never gives up on a conforming responder. -/
+theorem C13_reads_exact_for_framings (rid : Nat) (hid : rid < 65536) (ps : List Piece) (tail : Bytes)
+    (h : WellSized ps) (plen : Nat) (hp : 0 < plen) :
+    readTrace (framing rid ps tail) plen =
+      .ok { zero := emptyOuts ps, empties := emptyOuts ps, out := (outsOf ps).flatten,
+            stderr := errsOf ps, fin := .eof } :=
+  readTrace_framing rid hid ps tail h plen hp
+
+/-- c13.reads: the judge accepts the model's answer for every framing (the reference decoder
+counts the same empty data records the reader stumbles over) -/
+theorem C13_reads_model_verdict_ok (rid : Nat) (hid : rid < 65536) (ps : List Piece) (tail : Bytes)
+    (h : WellSized ps) (plen : Nat) (hp : 0 < plen) :
+    ∃ t, readTrace (framing rid ps tail) plen = .ok t ∧
+      readsVerdict (framing rid ps tail) t.zero t.zero true = "ok" := by
+  refine ⟨_, C13_reads_exact_for_framings rid hid ps tail h plen hp, ?_⟩
+  unfold readsVerdict
+  rw [emptyDataRecords_framing rid hid tail ps _ h (framing_length rid ps tail)]
+  simp
 
 /-! ### regenerated constants -/
 
@@ -261,6 +310,13 @@ example : encodeSize 127 = [127] ∧ encodeSize 128 = [128, 0, 0, 128] := by dec
 demultiplexed -/
 example : demux (framing 1 [⟨false, [0x61], 3⟩, ⟨true, [0x65], 0⟩, ⟨false, [0x62], 255⟩, ⟨false, [], 1⟩] [9]) =
     .ok { out := [[0x61], [0x62], []], err := [0x65], fin := .eof } := by decide +kernel
+
+/-- 3 stderr records in a row, then data, the terminator, EndRequest, read one byte at a time:
+one call without progress (the terminator), none for the stderr records -/
+example : readTrace (framing 1 [⟨true, [0x65], 0⟩, ⟨true, [0x66], 1⟩, ⟨true, [0x67], 2⟩, ⟨false, [0x61, 0x62], 3⟩,
+      ⟨false, [], 0⟩] []) 1 =
+    .ok { zero := 1, empties := 1, out := [0x61, 0x62], stderr := [0x65, 0x66, 0x67], fin := .eof } := by
+  decide +kernel
 
 /-- `/y.PHP` under the php preset in case-sensitive mode: covered, and sent -/
 def presetRule : Rule := { path := [0x2f], ext := bytes ".php", split := bytes ".php", index := [bytes "index.php"] }
